@@ -3330,8 +3330,10 @@ Boolean PushSymbol(tStrComp const* pSymName, tStrComp const* pStackName) {
 
     Elem             = (PSymbolStackEntry)malloc(sizeof(TSymbolStackEntry));
     Elem->Next       = LStack->Contents;
-    Elem->Contents   = pSrc->SymWert;
     LStack->Contents = Elem;
+    /* the stack entry owns its own copy of a string value */
+    as_tempres_ini(&Elem->Contents);
+    as_tempres_copy(&Elem->Contents, &pSrc->SymWert);
 
     return True;
 }
@@ -3400,6 +3402,8 @@ Boolean PopSymbol(tStrComp const* pSymName, tStrComp const* pStackName) {
         WrStrErrorPos(ErrNum_ConstantRedefinedAsVariable, pSymName);
         return False;
     }
+    /* the symbol takes over the entry's value, its old one is released */
+    as_tempres_free(&pDest->SymWert);
     pDest->SymWert   = Elem->Contents;
     LStack->Contents = Elem->Next;
     if (!LStack->Contents) {
@@ -3428,6 +3432,7 @@ void ClearStacks(void) {
         while (Act->Contents) {
             Elem          = Act->Contents;
             Act->Contents = Elem->Next;
+            as_tempres_free(&Elem->Contents);
             free(Elem);
             z++;
         }
